@@ -1,13 +1,14 @@
-SPECIFICATION SpecD
-CONSTANTS N = 3
-  Walker = "outline"
-  MaxDepth = 4
+SPECIFICATION Spec
+CONSTANTS N = 2
+  Walkers = {"nametree"}
+  MaxDepth = 1
   MaxChain = 3
-  StackCap = 12
+  StackCap = 2
   G_SEEN = TRUE
   G_DEPTH = TRUE
   G_SCALAR = TRUE
   G_STMFIRST = TRUE
   G_CHAIN = TRUE
 INVARIANTS NoOverflow WorkBounded ChainBounded
-CHECK_DEADLOCK TRUE
+PROPERTY Termination
+CHECK_DEADLOCK FALSE
